@@ -825,16 +825,27 @@ func c02ChildrenThroughNormaliser(c *core.Ctx, r *c13roles) {
 				}
 			}
 		}
-		if !walksList {
-			continue
-		}
 		for _, ci := range core.Calls(f) {
 			if ci.Common().StaticCallee() != r.parseNode {
 				continue
 			}
 			call, ok := ci.(*ssa.Call)
-			if !ok || !blockOnCycle(call.Block()) {
-				continue // only children evaluated in a loop (object members, array elements)
+			if !ok {
+				continue
+			}
+			// only children evaluated in a loop (object members, array elements): the call sits on a cycle of a function that
+			// walks the list, or in a helper that is handed one element of the list per iteration of its caller's loop (the
+			// loop body of a composite evaluator extracted into a function)
+			inLoop := walksList && blockOnCycle(call.Block())
+			if !inLoop && !walksList {
+				for _, a := range call.Call.Args {
+					if core.NamedOf(a.Type()) == r.declT && c02ListElement(c, a, list, true, 0) {
+						inLoop = true
+					}
+				}
+			}
+			if !inLoop {
+				continue
 			}
 			for _, u := range core.Referrers(call) {
 				ex, ok := u.(*ssa.Extract)
@@ -867,6 +878,61 @@ func c02ChildrenThroughNormaliser(c *core.Ctx, r *c13roles) {
 	if n == 0 {
 		c.Unresolved("R02i", "child evaluations", "no ParseNode call inside a loop found in the composite evaluators")
 	}
+}
+
+// c02ListElement: v is an element of the evaluation-order list (a load through an index step of the list field), or a
+// parameter of a helper with a closed, non-empty set of call sites every one of which passes such an element; with
+// perIteration the element must be handed over inside a loop (of the helper's caller, or the helper's own).
+func c02ListElement(c *core.Ctx, v ssa.Value, list *types.Var, perIteration bool, depth int) bool {
+	if depth > 2 || list == nil {
+		return false
+	}
+	v = core.Unwrap(v, true)
+	if ld, ok := v.(*ssa.UnOp); ok && ld.Op == token.MUL {
+		if cell, ok := ld.X.(*ssa.Alloc); ok {
+			// per-iteration copy of the range variable (captured by a closure)
+			sts := storesToCell(cell)
+			if len(sts) != 1 {
+				return false
+			}
+			return c02ListElement(c, sts[0].Val, list, perIteration, depth)
+		}
+	}
+	if p, ok := v.(*ssa.Parameter); ok {
+		sites, closed := f2CallSites(c, p.Parent())
+		idx := f2ParamIndex(p)
+		if !closed || len(sites) == 0 || idx < 0 {
+			return false
+		}
+		for _, s := range sites {
+			call, isCall := s.(*ssa.Call)
+			if !isCall || idx >= len(call.Call.Args) {
+				return false
+			}
+			if !c02ListElement(c, call.Call.Args[idx], list, perIteration && !blockOnCycle(call.Block()), depth+1) {
+				return false
+			}
+		}
+		return true
+	}
+	steps, _ := core.TraceAddr(v)
+	indexed := false
+	for _, s := range steps {
+		if s.Kind == "index" {
+			indexed = true
+		}
+		if s.Kind == "field" {
+			if s.Field == list && indexed {
+				if !perIteration {
+					return true
+				}
+				in, ok := v.(ssa.Instruction)
+				return ok && blockOnCycle(in.Block())
+			}
+			return false
+		}
+	}
+	return false
 }
 
 // sortsListField: f (or a static repository callee, depth <= 2) calls sort.Slice/SliceStable/Sort/Stable on a value that
